@@ -4,7 +4,6 @@ import IrVerif.Model.Sort
 
 Requests: `{"m": "sort.sort", "graph": G}`, `{"m": "sort.universe", "graph": G}` with
 `G = {"g": gid, "n": [N...]}` and `N = {"i": id, "in": [producer id | null ...], "s": [G...]}`;
-`{"m": "sort.kahn", "n": n, "preds": [[...]...]}` (the abstract loop on positions);
 `{"m": "sort.relink", "cur": [...], "xs": [...]}`. -/
 open Lean IrVerif.Drive
 namespace IrVerif.Drive.Sort
@@ -34,20 +33,14 @@ def handle : Handler := fun m j =>
   match m with
   | "sort.sort" => some do
       let g ← parseGraph (← j.getObjVal? "graph")
+      let eff := sortEffect g
       match sortModel g with
-      | none => return obj [("r", Json.str "raised")]
-      | some r => return obj [("r", graphsJ r)]
+      | none => return obj [("r", Json.str "raised"), ("after", graphsJ eff.2)]
+      | some r => return obj [("r", graphsJ r), ("after", graphsJ eff.2)]
   | "sort.universe" => some do
       let g ← parseGraph (← j.getObjVal? "graph")
       return obj [("r", Json.arr ((nodesOf g).map (fun e =>
         Json.arr #[toJson e.id, toJson e.gid])).toArray)]
-  | "sort.kahn" => some do
-      let n ← getNat j "n"
-      let ps ← getArr j "preds"
-      let ps ← ps.mapM (fun x => do
-        let a ← (fromJson? x : Except String (Array Nat)); pure a.toList)
-      let out := kahn n (fun i => ps.getD i [])
-      return obj [("r", natsJ out.reverse), ("complete", toJson (out.length == n))]
   | "sort.relink" => some do
       return obj [("r", natsJ (relink (← getNats j "cur") (← getNats j "xs")))]
   | _ => none
